@@ -97,6 +97,6 @@ def run(tier, replay=None):
     vlib.ndjson_write(rt, [e for e in vlib.ndjson_read(tr) if e.get("ev") == "Retain" and wf(e["old"])])
     validate(c, "C10", rt)
     c.cov["exhaustive"] = True
-    c.cov["rule"] = "every graph on 3 (thorough: design check on 4) nodes with <=2 (thorough replay: <=3) ordered references per node as a concrete registry (11 definition shapes incl. type parameters with and without a type) x every filter subset: model-checked (DoneOK = the statement, PlaceholderNeverRead, termination) and every behaviour replayed on the real retain comparing map and full result; plus random well-formed registries (<=12 entries, all kinds) x random filters, and retain applied again to its own output, validated by TLC running the Retain specification on the concrete entries"
+    c.cov["rule"] = "every graph on 3 (thorough: design check on 4) nodes with <=2 (thorough replay: <=3) ordered references per node as a concrete registry (every definition kind incl. empty arrays, marker types, parameters with and without a type on composite / sequence / tuple definitions) x every filter as a TOTAL predicate (subset of the ids x its answer for numbers that are no ids): model-checked (DoneOK = the statement, PlaceholderNeverRead, termination) and every behaviour replayed on the real retain comparing map and full result; plus random well-formed registries (<=12 entries, all kinds) x random filters, and retain applied again to its own output, validated by TLC running the Retain specification on the concrete entries"
     c.assumptions += ["input registries are well-formed (premise of the property)", "the filter is a pure predicate on ids", "small-scope hypothesis"]
     return c.finish()
